@@ -196,7 +196,8 @@ def run(c):
             if o["want"]:
                 c.nontriv(("engine", o["pred"], o["neg"], o["pat"], o["input"]))
             if o["got"] != o["want"]:
-                c.fail("oracle", "%s%s.Matches disagrees with regexp on the same text" % ("!" if o["neg"] else "", o["pred"]),
+                c.fail("oracle", ("a boolean combination of Text.Matches predicates is not that combination of regexp's verdicts, each on its own pattern and text"
+                                  if o["pred"] == "bool" else "%s%s.Matches disagrees with regexp on the same text" % ("!" if o["neg"] else "", o["pred"])),
                        input={"predicate": o["pred"], "negated": o["neg"], "pattern": repr(b64(o["pat"])), "text": repr(b64(o["input"])),
                               "run": o.get("run"), "runner_state": {"shared": "one RunnerState reused for the whole history of runs",
                                                                     "nil": "RunContext.State == nil"}.get(o.get("mode"), o.get("mode")),
